@@ -46,6 +46,7 @@ def main():
             m = json.load(open(meta))
             prop = m["property"]
             if args and prop not in args: continue
+            if match and match not in os.path.basename(os.path.dirname(meta)): continue
             work.append((prop, os.path.join(os.path.dirname(meta), "patch.diff"), m.get("expect_obligation", "")))
     else:
         for patch in sorted(glob.glob(os.path.join(VERIF, "selftest", "mutants", "*", "*.patch"))):
